@@ -429,7 +429,7 @@ func metadataCoAssign(r *Report, rule string) {
 		return
 	}
 	n := coAssigned(r, rule, info, []*types.Var{ib, ir}, "tor")
-	r.Sentinel(rule, n, 3)
+	r.Sentinel(rule, n, 2)
 }
 
 func runC05(r *Report) {
